@@ -423,3 +423,64 @@ pub fn gen_grammar(ctx: &Ctx) {
     }
     out.finish();
 }
+
+// ---------------------------------------------------------------------------------------------
+// stream `swar` (C01): the two word-at-a-time scanners called directly (hook `verif::match_*_vectored`), each input placed
+// flush against a trailing guard page and right after a leading one.  case = hex bytes; impl = `u=<n> p=<n>`.
+fn swar_line(g: &Guarded, input: &[u8]) -> String {
+    let f = |b: &[u8]| {
+        let r = std::panic::catch_unwind(|| (khttp::verif::match_uri_vectored(b), khttp::verif::match_path_vectored(b)));
+        match r { Ok((u, p)) => format!("u={u} p={p}"), Err(_) => "PANIC".to_string() }
+    };
+    let a = f(g.at_end(input));
+    let b = f(g.at_start(input));
+    if a == b { a } else { format!("PLACEMENT-DEPENDENT end=({a}) start=({b})") }
+}
+
+pub fn run_swar(case: &str) -> String {
+    crate::util::note_current(case);
+    let g = Guarded::new(1 << 16);
+    swar_line(&g, &unhex(if case == "-" { "" } else { case }))
+}
+
+pub fn gen_swar(ctx: &Ctx) {
+    let mut rng = Rng::new(ctx.seed, "swar");
+    let mut out = Out::new(&ctx.dir, "swar");
+    out.rule = "match_uri_vectored / match_path_vectored called directly on: strings of visible ASCII of every length 0..40 with one or two bytes replaced, at every position, by each of \
+                00 09 0a 0d 1f 20 21 22 3c 3e 3f 5c 5e 7b 7c 7d 7e 7f 80 81 a0 c3 fe ff (thorough: all 256 values, lengths to 72); random strings over mixed alphabets; each placed against guard pages on both sides. non-trivial = a stop byte inside a full 8-byte word".into();
+    let g = Guarded::new(1 << 16);
+    let marker = Marker::new(&ctx.dir, "swar");
+    let interesting: Vec<u8> = if ctx.thorough { (0..=255u8).collect() } else { vec![0x00, 0x09, 0x0a, 0x0d, 0x1f, 0x20, 0x21, 0x22, 0x3c, 0x3e, 0x3f, 0x5c, 0x5e, 0x7b, 0x7c, 0x7d, 0x7e, 0x7f, 0x80, 0x81, 0xa0, 0xc3, 0xfe, 0xff] };
+    let maxlen = if ctx.thorough { 72 } else { 40 };
+    let mut emit = |out: &mut Out, b: &[u8], class: &str| {
+        let case = if b.is_empty() { "-".to_string() } else { hex(b) };
+        marker.set(&case); crate::util::note_current(&case);
+        let r = swar_line(&g, b);
+        // non-trivial: the stop lies inside a full word (not in the scalar tail)
+        let nt = r.split(' ').next().and_then(|t| t.strip_prefix("u=")).and_then(|v| v.parse::<usize>().ok()).map(|u| u / 8 * 8 + 8 <= b.len()).unwrap_or(false);
+        out.emit(&case, &r, class, nt);
+    };
+    for len in 0..=maxlen {
+        let base: Vec<u8> = (0..len).map(|i| b"abcdefghijklmnopqrstuvwxyz/-._~%0123456789"[(i * 7 + len) % 42]).collect();
+        emit(&mut out, &base, "clean");
+        for pos in 0..len {
+            for &v in &interesting {
+                let mut b = base.clone(); b[pos] = v;
+                emit(&mut out, &b, "one-byte");
+            }
+            if !ctx.thorough && len % 3 != 0 { continue; }
+            // a second offending byte later in the string (the first one must win)
+            let pos2 = pos + 1 + rng.below((len - pos) as u64) as usize;
+            if pos2 < len { let mut b = base.clone(); b[pos] = *rng.pick(&interesting); b[pos2] = *rng.pick(&interesting); emit(&mut out, &b, "two-bytes"); }
+        }
+    }
+    let n = if ctx.thorough { 200000 } else { 20000 };
+    for _ in 0..n {
+        let len = rng.below(48) as usize;
+        let style = rng.below(4);
+        let b: Vec<u8> = (0..len).map(|_| match style { 0 => rng.below(256) as u8, 1 => 0x21 + rng.below(0x5e) as u8, 2 => if rng.chance(1, 12) { *rng.pick(&interesting) } else { 0x21 + rng.below(0x5e) as u8 }, _ => if rng.chance(1, 2) { 0x7e + rng.below(4) as u8 } else { 0x1e + rng.below(5) as u8 } }).collect();
+        emit(&mut out, &b, "random");
+    }
+    marker.clear();
+    out.finish();
+}
